@@ -46,7 +46,14 @@ pub fn generate(
     constr: &mut ConstrBuilder,
 ) -> Constrained {
     match &ast.node {
-        Block { statements } => gen_vec(statements, env, true, ctx, constr),
+        Block { statements } => {
+            // Only the last statement of a block can be its value: the others are no expressions.
+            let Some((last, stmts)) = statements.split_last() else {
+                return Ok(env.clone());
+            };
+            let stmts_env = gen_vec(stmts, &env.is_expr(false), true, ctx, constr)?;
+            generate(last, &stmts_env.is_expr(env.is_expr), ctx, constr)
+        }
 
         Class { .. } | TypeDef { .. } => gen_class(ast, env, ctx, constr),
         TypeAlias { .. } | Condition { .. } => gen_class(ast, env, ctx, constr),
